@@ -47,7 +47,9 @@ def parse_dump(dump):
                     ver, live = meta.split("/")
                     keys[unesc(k)] = (unesc(val), int(ver), live)
             dbs[unesc(d.group(1))] = {"strat": d.group(2), "keys": keys}
-        nodes[m.group(1)] = {"role": m.group(2), "dead": bool(m.group(3)), "members": m.group(4), "pending": int(m.group(5)), "dbs": dbs}
+        sm = re.match(r" snap=\[(.*?)\]", m.group(6))
+        nodes[m.group(1)] = {"role": m.group(2), "dead": bool(m.group(3)), "members": m.group(4), "pending": int(m.group(5)), "dbs": dbs,
+                             "snap": sorted(set(sm.group(1).split(","))) if sm and sm.group(1) else []}
     return nodes
 
 
